@@ -21,6 +21,25 @@ pub use sim::rt::spawn;
 pub mod task {
     pub use crate::sim::rt::{spawn, AbortHandle, JoinError, JoinHandle};
     pub use tokio_real::task::*;
+
+    /// There is no blocking pool in the simulation: the closure becomes a task of its own and
+    /// runs, in one piece, when the seeded scheduler picks it - one of the interleavings a
+    /// blocking thread could produce.
+    pub fn spawn_blocking<F, R>(f: F) -> JoinHandle<R>
+    where
+        F: FnOnce() -> R + 'static,
+        R: 'static,
+    {
+        spawn(async move { f() })
+    }
+
+    /// No worker thread to hand over: the closure simply runs.
+    pub fn block_in_place<F, R>(f: F) -> R
+    where
+        F: FnOnce() -> R,
+    {
+        f()
+    }
 }
 
 pub mod time {
